@@ -61,7 +61,7 @@ fn queries(sh: &Shadow, rng: &mut Rng, ops: &mut Vec<String>, count: usize) {
         match rng.below(8) {
             0 | 1 => { let c = rng.below(sh.w as u64) as usize; if sh.defined(r, c) { ops.push(format!("g:{r}:{c}")); } }
             2 => if fd > 0 && sh.row_clean(r) { let a = rng.below(fd as u64 + 1) as usize; let b = rng.range(a as u64, fd as u64) as usize; ops.push(format!("co:{r}:{a}:{b}")); }
-            3 => if fd > 0 && sh.row_clean(r) { let a = rng.below(fd as u64 + 1) as usize; let b = rng.range(a as u64, fd as u64) as usize; if b > a { ops.push(format!("it:{r}:{a}:{b}")); } }
+            3 => if fd > 0 && sh.row_clean(r) { let a = rng.below(fd as u64 + 1) as usize; let b = rng.range(a as u64, fd as u64) as usize; if b > a || rng.chance(1, 3) { ops.push(format!("it:{r}:{a}:{b}")); } }
             4 => if sh.dense > 0 && sh.defined(r, fd) { ops.push(format!("sro:{r}:{fd}")); }
             5 => if sh.dense > 0 && sh.defined(r, fd) { ops.push(format!("nz:{r}:{fd}")); }
             6 => if sh.indexed && fd > 0 { let c = rng.below(fd as u64) as usize; if sh.col_valid[c] && (0..sh.h).all(|r| sh.row_clean(r)) { let a = rng.below(sh.h as u64) as usize; let b = rng.range(a as u64, sh.h as u64) as usize; ops.push(format!("oc:{c}:{a}:{b}")); } }
